@@ -82,6 +82,8 @@ spec fn flushed_to(ps: Seq<Piece>, a: int) -> int { if ps.len() > 0 { ps.last().
             &&& (final(overlap)@.len() > 0 ==> b == next_start)
             [[L: flushed_pieces_tile_and_have_exact_depth]]
             &&& pieces_ok(out@.1, item_start as int, b, ents2)
+            [[L: flushed_pieces_nonempty]]
+            &&& forall|q: int| 0 <= q < out@.1.len() ==> (#[trigger] out@.1[q]).s < out@.1[q].e
             [[L: summary_is_fold_of_flushed_pieces]]
             &&& *final(summary) == fold_pieces(*old(summary), out@.1)
             [[L: bases_covered_exact]]
@@ -144,7 +146,7 @@ spec fn flushed_to(ps: Seq<Piece>, a: int) -> int { if ps.len() > 0 { ps.last().
             }
             let ghost l_mid = overlap@;
 //@at /let next_start = next_start_opt\.unwrap_or/ before
-            proof { [[L: tail_extended_to_max_end]]
+            proof { [[L: tail_extends_to_item_end]]
                 if l_mid.len() > 0 && l_mid.last().end >= item_end {
                     lemma_tail_keep(l_mid, d, item_start, item_end, ents);
                 } else {
@@ -177,6 +179,8 @@ spec fn flushed_to(ps: Seq<Piece>, a: int) -> int { if ps.len() > 0 { ps.last().
                     hi_of(overlap@, lo) == hi1,
                     [[L: flush/pieces_tile_and_have_exact_depth]]
                     pieces_ok(ps, item_start as int, lo, ents2),
+                    [[L: flush/applied_pieces_nonempty]]
+                    forall|q: int| 0 <= q < ps.len() ==> (#[trigger] ps[q]).s < ps[q].e,
                     [[L: flush/summary_is_fold_of_pieces]]
                     *summary == fold_pieces(*old(summary), ps),
                     [[L: flush/bases_covered_exact]]
@@ -189,13 +193,13 @@ spec fn flushed_to(ps: Seq<Piece>, a: int) -> int { if ps.len() > 0 { ps.last().
                 proof { float_ax::float_det(); }
                 let ghost l_in = overlap@;
                 let ghost sum_in = *summary;
-//@at /match summary \{/ before
+//@at /^\s*\};\s*$/ after
+                let ghost d_first = d[0];
+                let ghost lo2: int = if l_in[0].end <= next_start { l_in[0].end as int } else { next_start as int };
+                let ghost pc = Piece { s: lo, e: lo2, d: d_first };
                 proof { [[L: flush/step_removes_exact_piece]]
-                    let d_first = d[0];
                     let _ = l_in[0];
                     assert(seg_depth(l_in[0], d[0], ents2));
-                    let lo2: int = if l_in[0].end <= next_start { l_in[0].end as int } else { next_start as int };
-                    let pc = Piece { s: lo, e: lo2, d: d_first };
                     if l_in[0].end <= next_start {
                         lemma_flush_whole(l_in, d, lo, ents2);
                         d = d.subrange(1, d.len() as int);
@@ -203,14 +207,17 @@ spec fn flushed_to(ps: Seq<Piece>, a: int) -> int { if ps.len() > 0 { ps.last().
                         lemma_flush_part(l_in, d, lo, ents2, next_start, removed);
                     }
                     assert(piece_depth(pc, ents2));
-                    lemma_pieces_push(ps, item_start as int, lo, pc, ents2);
                     lemma_cnt_step(ents2, lo, lo2);
                     lemma_cnt_bound(ents2, 0, lo);
-                    assert(ps.push(pc).drop_last() =~= ps);
                     assert(len == (pc.e - pc.s) as u32); [[L: flush/piece_length_is_flushed_span]]
                     assert(val == piece_val(pc)); [[L: flush/piece_value_is_depth]]
-                    ps = ps.push(pc);
                     lo = lo2;
+                }
+//@at /match summary \{/ before
+                proof { [[L: flush/piece_applied_to_summary]]
+                    lemma_pieces_push(ps, item_start as int, pc.s, pc, ents2);
+                    assert(ps.push(pc).drop_last() =~= ps);
+                    ps = ps.push(pc);
                 }
 //@close
             proof { [[L: exit]]
